@@ -378,6 +378,12 @@ def check(an: Analysis) -> None:
     else:
         ob.fail(saenter, None, "task group enter not found")
 
+    # ------------------------------------------------------------------ C09.10 spawned tasks are joined before the metrics scope is finished
+    from ..engine import borrow
+    from . import c10
+
+    borrow(an, c10.check, {"C10.6": "C09.10"})
+
     # ------------------------------------------------------------------ C09.9 no registration under a completed parent
     ob = an.ob("C09.9", "K2", "registration in the parent's _nested is unreachable when the parent is already completed (a completed scope keeps reporting is_completed)", [f"{SM}.__init__"])
     if apps:
